@@ -946,7 +946,7 @@ class Sdpa:
         c1 = fuse_sdpa(model, apply_shape_inference=True)
         mid = observe_mid(model, {"SDPA"})
         c2 = replace_sdpa_by_mha(model)
-        return f"{c1}/{c2} {mid} ;"
+        return f"{c1}/{c2} {mid} ;{via_mha(model)}"
 
     @staticmethod
     def feeds(c, rng):
@@ -972,6 +972,36 @@ class Sdpa:
     @staticmethod
     def out_dt(c):
         return c["dt"]
+
+
+def via_mha(model) -> str:
+    """How `replace_sdpa_by_mha` brings the 4-D SDPA operands to MHA's 3-D layout and the result back:
+    per operand `T<perm>R<shape>` (Transpose then Reshape with that constant shape), `|`-separated, then the output
+    path `R<shape>T<perm>`."""
+    def const_list(v):
+        cv = v.const_value if v is not None else None
+        return "/".join(str(int(x)) for x in cv.numpy().reshape(-1)) if cv is not None else "?"
+
+    for n in model.graph:
+        if n.op_type == "MultiHeadAttention":
+            parts = []
+            for v in list(n.inputs)[:3]:
+                p = v.producer() if v is not None else None
+                if p is None or p.op_type != "Reshape":
+                    parts.append("-")
+                    continue
+                t = p.inputs[0].producer()
+                tp = "T" + "".join(str(x) for x in t.attributes.get_ints("perm")) if t is not None and t.op_type == "Transpose" else ""
+                parts.append(f"{tp}R{const_list(p.inputs[1])}")
+            out = "-"
+            uses = list(n.outputs[0].uses())
+            if uses and uses[0][0].op_type == "Reshape":
+                r = uses[0][0]
+                u2 = list(r.outputs[0].uses())
+                tp = "T" + "".join(str(x) for x in u2[0][0].attributes.get_ints("perm")) if u2 and u2[0][0].op_type == "Transpose" else ""
+                out = f"R{const_list(r.inputs[1])}{tp}"
+            return " via=" + "|".join(parts + [out])
+    return ""
 
 
 def observe_mid(model, ops):
